@@ -594,7 +594,6 @@ def k_axioms(args, res, exc):
 def c_shift(f, a, n):
     F = _F(f); x = F(a)
     out = dict(lsh=_o(F, lambda: x << n), rsh=_o(F, lambda: x >> n), round=_o(F, lambda: (x << n) >> n),
-               ilsh=_o(F, lambda: _inplace('ilsh', F(a), n)), irsh=_o(F, lambda: _inplace('irsh', F(a), n)),
                mul_int=_o(F, lambda: x * (1 << n)), x=_enc(F, x))
     return out
 
@@ -604,7 +603,41 @@ def k_shift(args, res, exc):
     t = O.pow(O.conv(2), n)
     l = O.mul(a, t); r = O.div(a, t)
     # "mixing in integers equals converting first": a * 2^n (the int) is a * F(2^n); recorded to show the three-way disagreement
-    return _cmp(res, dict(lsh=l, ilsh=l, rsh=r, irsh=r, round=a if t != 0 else RZ, mul_int=O.mul(a, O.conv(1 << n)), x=a), exc)
+    return _cmp(res, dict(lsh=l, rsh=r, round=a if t != 0 else RZ, mul_int=O.mul(a, O.conv(1 << n)), x=a), exc)
+
+
+# ---- in-place shifts agree with the binary shifts (whatever those compute: entry of its own, so that a defect in the meaning
+#      of the shifts does not hide a disagreement between the two forms)
+def c_ishift(f, a, n):
+    F = _F(f); x = F(a); out = dict(lsh=_o(F, lambda: x << n), rsh=_o(F, lambda: x >> n))
+    for op in ('ilsh', 'irsh'):
+        y0 = y = F(a)
+        try:
+            y = _inplace(op, y, n); r = _enc(F, y)
+        except TimeoutError:
+            raise
+        except Exception as e:      # noqa
+            r = 'raise ' + type(e).__name__
+        out[op] = (r, _enc(F, y0), y is y0)
+    out['x'] = _enc(F, x)
+    return out
+
+
+def k_ishift(args, res, exc):
+    f, a, n = args
+    if exc is not None: return f'unexpected {type(exc).__name__}: {exc}'
+    if res['x'] != a: return f'operand of the binary shifts changed to {res["x"]!r}'
+    for op, b in (('ilsh', 'lsh'), ('irsh', 'rsh')):
+        r, left, same = res[op]; e = res[b]
+        if isinstance(e, str) and not e.startswith('raise '): return f'{b}: {e}'
+        if r != e: return f'{op}: got {r!r}, but the binary operator gives {e!r}'
+        if isinstance(e, str):
+            if left != a: return f'{op}: left operand changed to {left!r} although the operation raised'
+        elif same:
+            if left != e: return f'{op}: returned self but self holds {left!r}'
+        elif left != a:
+            return f'{op}: returned a new object and changed the old one to {left!r}'
+    return True
 
 
 # ---- constructor: F(n) for any integer n is the reduced element conv(n)
@@ -650,6 +683,8 @@ for _k in ('prime', 'binary', 'oddext'):
         Native(f'shift_{_k}', 'mpyc.finfields.PrimeFieldElement.__lshift__/__rshift__/__ilshift__/__irshift__' if _k == 'prime'
                else 'mpyc.finfields.ExtensionFieldElement.__lshift__/__rshift__/__ilshift__/__irshift__', c_shift, k_shift, in_shift(_k),
                f'{_kd}; all elements for q <= 101 (thorough 257); shift counts 0..8'),
+        Native(f'ishift_{_k}', 'mpyc.finfields.PrimeFieldElement.__ilshift__/__irshift__' if _k == 'prime' else 'mpyc.finfields.ExtensionFieldElement.__ilshift__/__irshift__',
+               c_ishift, k_ishift, in_shift(_k), f'{_kd}; all elements for q <= 101 (thorough 257); shift counts 0..8; reference = the real binary shift'),
         Native(f'construct_{_k}', 'mpyc.finfields.PrimeFieldElement.__init__' if _k == 'prime' else 'mpyc.finfields.ExtensionFieldElement.__init__', c_construct, k_construct,
                in_construct(_k), f'{_kd}; F(n) for n in -2q..2q'),
     ]
@@ -719,6 +754,19 @@ _C21.append(Native('sqrt_q1_fresh_class', 'mpyc.finfields.ExtensionFieldElement.
                    _SQ_B['q1'] + '; each call on a newly created class (xGF.__wrapped__), quick: lattice for q > 81'))
 
 
+
+def c_sqrt_after(fprev, f, a):
+    """class-level state (_least_qnr) set by a square root in one field must not leak into another field: both classes new"""
+    G = _fresh(fprev); G(1).sqrt(); (G(2) * G(2)).sqrt(INV=True)          # squares only: sqrt of a non-square is unspecified
+    return c_sqrt(f, a, True)
+
+
+_C21.append(Native('sqrt_q1_after_other_field', 'mpyc.finfields.ExtensionFieldElement._sqrt (_least_qnr cache, two fields)', c_sqrt_after,
+                   lambda args, res, exc: k_sqrt(args[1:], res, exc),
+                   lambda tier: ((g, f, a) for f in SQ_EXT_Q1 for g in SQ_EXT_Q1 if g != f for a in (range(_O(f).q) if tier != 'quick' else lattice(0, _O(f).q)[::2])),
+                   'every ordered pair (g, f) of distinct fields of sqrt_q1: sqrt in a new class of g first, then the contract for elements of a new class of f '
+                   '(quick: every second lattice element; thorough: all)'))
+
 # ===================================================================================== C22: bytes, pickle, integer views
 P64A, P64B = 2 ** 64 - 59, 2 ** 64 + 13
 BY_PRIME = [('p', p) for p in (2, 3, 5, 7, 13, 127, 251, 257, 65521, 65537, 16777213, 16777259, 2 ** 31 - 1, 4294967291, 4294967311, 2 ** 61 - 1, P64A, P64B, 2 ** 127 - 1)]
@@ -732,7 +780,7 @@ def in_bytes(flds):
         for f in flds:
             q = _O(f).q
             if q <= 5:
-                for n in range(0, T(tier, 5, 6)):
+                for n in range(0, T(tier, 6, 7)):
                     for l in itertools.product(range(q), repeat=n): yield (f, list(l))
                 continue
             S = lattice(0, q, extra=[255, 256, 257, 65535, 65536, 65537, 2 ** 24 - 1, 2 ** 24, 2 ** 32 - 1, 2 ** 32, 2 ** 64 - 1, 2 ** 64])
@@ -788,7 +836,7 @@ def c_pickle(f, a):
     for proto in range(0, pickle.HIGHEST_PROTOCOL + 1):
         g = pickle.loads(pickle.dumps(e, protocol=proto))
         out[proto] = (_enc(type(g), g), type(g) is type(e), _ob(lambda: g == e and e == g and not (g != e)), hash(g) == hash(e),
-                      _enc(F, g + e), type(g).__name__ == F.__name__, getattr(type(g), 'modulus', None) == F.modulus,
+                      _o(F, lambda: g + e), type(g).__name__ == F.__name__, getattr(type(g), 'modulus', None) == F.modulus,
                       (getattr(type(g), 'nth', None), getattr(type(g), 'root', None)) == (getattr(F, 'nth', None), getattr(F, 'root', None)))
     l = pickle.loads(pickle.dumps([e, e, F(0)]))
     out['list'] = ([_enc(F, v) for v in l], l[0] is l[1])
@@ -838,13 +886,17 @@ def k_intviews(args, res, exc):
 IV_PRIME = [('p', p) for p in PRIMES_257] + [('p', p) for p in (65521, 65537, 2 ** 61 - 1, P64A, P64B)]
 _C22 = [
     Native('bytes_prime', 'mpyc.finfields.FiniteFieldElement.to_bytes/from_bytes (prime fields)', c_bytes, k_bytes, in_bytes(BY_PRIME),
-           'p in {2,3,5,7,13,127,251,257,65521,65537,2^24-3,2^24+43,2^31-1,2^32-5,2^32+15,2^61-1,2^64-59,2^64+13,2^127-1}; all lists of length 0..4 for p <= 5, '
+           'p in {2,3,5,7,13,127,251,257,65521,65537,2^24-3,2^24+43,2^31-1,2^32-5,2^32+15,2^61-1,2^64-59,2^64+13,2^127-1}; all lists of length 0..5 (thorough 0..6) for q <= 5, '
            'else lists of length 0,1 (whole lattice incl. 0, q-1 and values around 2^8,2^16,2^24,2^32,2^64), 2 (thinned lattice squared), 3..5 (extreme patterns)'),
     Native('bytes_ext', 'mpyc.finfields.FiniteFieldElement.to_bytes/from_bytes (extension fields)', c_bytes, k_bytes, in_bytes(BY_EXT),
            'GF(2^d) d in {2,3,4,5,7,8 (2 moduli),9,16}, GF(9),GF(25),GF(27),GF(49),GF(81),GF(121),GF(125),GF(243),GF(729),GF(289),GF(251^2),GF(257^2); lists as for prime fields'),
     Native('pickle_prime', 'mpyc.finfields.PrimeFieldElement.__reduce__/createGF', c_pickle, k_pickle, in_pickle(PK_PRIME),
            'GF(p) p in {2,3,5,7,11,13,31,101,251,257,65537,2^61-1,2^64+13} and GF((p,n,w)) for nine (p,n,w) with 0 < w < p of order n; all elements for p <= 101 (thorough 300), lattice otherwise; '
            'all pickle protocols'),
+    # pGF itself reduces w (root = w % p), so tuples with w outside range(p) are fields "made by GF" as well; entry of its own
+    Native('pickle_prime_unreduced_root', 'mpyc.finfields.PrimeFieldElement.__reduce__/createGF (GF((p,n,w)), w outside range(p))', c_pickle, k_pickle,
+           lambda tier: ((f, a) for f in (('pt', 7, 2, 13), ('pt', 7, 2, -1), ('pt', 31, 5, 33), ('pt', 31, 5, -27)) for a in range(f[1])),
+           'GF((7,2,13)), GF((7,2,-1)), GF((31,5,33)), GF((31,5,-27)): w of order n but not reduced mod p; all elements; all pickle protocols'),
     Native('pickle_ext', 'mpyc.finfields.ExtensionFieldElement.__reduce__/createGF', c_pickle, k_pickle, in_pickle(PK_EXT),
            'GF(4),GF(8) x2,GF(16),GF(256) x2,GF(9) x2,GF(25),GF(27),GF(49),GF(81),GF(257^2); all elements for q <= 101 (thorough 300), lattice otherwise; all pickle protocols'),
     Native('intviews_prime', 'mpyc.finfields.PrimeFieldElement.__int__/signed_/unsigned_', c_intviews, k_intviews,
@@ -991,9 +1043,9 @@ _C26 = [
 ]
 
 
-# ---- every call runs under an alarm: an edit that makes the real code loop forever is reported as a violation
-#      (TimeoutError is in no contract) instead of hanging the check
-CALL_LIMIT_S = 20
+# ---- every call runs under a CPU-time alarm (user time of this process, so machine load does not matter): an edit that makes
+#      the real code loop forever is reported as a violation (TimeoutError is in no contract) instead of hanging the check
+CALL_LIMIT_S = 30
 
 
 def _limited(call):
@@ -1003,19 +1055,21 @@ def _limited(call):
             return call(*args)
 
         def on_alarm(signum, frame):
-            raise TimeoutError(f'call did not return within {CALL_LIMIT_S} s')
-        old = signal.signal(signal.SIGALRM, on_alarm)
-        signal.setitimer(signal.ITIMER_REAL, CALL_LIMIT_S)
+            raise TimeoutError(f'call used more than {CALL_LIMIT_S} s of CPU time without returning')
+        old = signal.signal(signal.SIGVTALRM, on_alarm)
+        signal.setitimer(signal.ITIMER_VIRTUAL, CALL_LIMIT_S)
         try:
             return call(*args)
         finally:
-            signal.setitimer(signal.ITIMER_REAL, 0)
-            signal.signal(signal.SIGALRM, old)
+            signal.setitimer(signal.ITIMER_VIRTUAL, 0)
+            signal.signal(signal.SIGVTALRM, old)
     return run
 
 
 NATIVE = {n.name: n for n in _C20 + _C21 + _C22 + _C26}
-for _n in NATIVE.values(): _n.call = _limited(_n.call)
+for _n in NATIVE.values():
+    _n.call = _limited(_n.call)
+    _n.func = _n.func.split(' ')[0]          # witness keys (function:name:args) must not contain blanks; the qualifier stays in the bound text and the entry name
 for _n in NATIVE.values(): _n.module = 'contracts.finfields'
 C20_NATIVES = [n.name for n in _C20]
 C21_NATIVES = [n.name for n in _C21]
